@@ -248,15 +248,20 @@ class World(object):
         if i is None:
             return None
         before = canon.ser_instr_input(i)
+        # the address expression is an input too; a caller may keep one object for several lifts
+        eip = self.expr_arg(['I', 'uint32', op.get('eip', 0x1000)], op.get('shared_eip'), resolved)
+        eip_before = canon.ser_expr(eip)
         try:
             if op.get('segm'):
-                affs = s.H.get_instr_expr(i, s.E.ExprInt(s.MI.uint32(op.get('eip', 0x1000))), [], set(op['segm']))
+                affs = s.H.get_instr_expr(i, eip, [], set(op['segm']))
             else:
-                affs = s.H.get_instr_expr(i, s.E.ExprInt(s.MI.uint32(op.get('eip', 0x1000))), [])
+                affs = s.H.get_instr_expr(i, eip, [])
         finally:
             after = canon.ser_instr_input(i)
             if after != before:
                 mut.append('instr')
+            if canon.ser_expr(eip) != eip_before:
+                mut.append('eip')
         return [canon.ser_expr(a) for a in affs]
 
     def op_simp(self, idx, op, resolved, mut):
@@ -838,7 +843,9 @@ def gen_history(rng):
                 ops.append({'op': 'asm_att', 'line': line, 'c': c})
             elif y < 0.72:
                 hx = rng.choice(bpool)
-                op = {'op': 'lift', 'hex': hx, 'eip': rng.choice([0, 0x1000]), 'c': c}
+                op = {'op': 'lift', 'hex': hx, 'eip': rng.choice([0, 0x1000, 0x12345678]), 'c': c}
+                if rng.random() < 0.5:
+                    op['shared_eip'] = True
                 if rng.random() < 0.3:
                     op['segm'] = sorted(rng.sample(range(6), rng.choice([1, 2, 6])))     # indexes into x86_afs.reg_sg
                 cands = [i for i, h in dis_results if h == hx]
